@@ -249,6 +249,11 @@ func runVGenesisCase(ta *TestApp, seed uint64, idx int, rep *Report, profile str
 		}
 	}
 	denom := BondDenom
+	if rng.Chance(35) {
+		// a chain whose vesting denomination is not the module's default (set at genesis, or changed by governance before any pool existed)
+		denom = []string{"uvest", "ibc/27394FB092D2ECCD56123C74F36E4C1F926001CEADA9CA97EA622B25F41E5EB2", "u2"}[rng.Intn(3)]
+		rep.Count("denom.not_the_default")
+	}
 	if choose == 15 {
 		denom = []string{"", "1"}[rng.Intn(2)]
 		pert = "denom"
